@@ -308,6 +308,42 @@ func checkTs(s *sw.Sys, c *sw.Consumer, who string) []seqx.Viol {
 				break
 			}
 		}
+		// the frames themselves: every slice NAL names the message it was published in (sw.MakeMsg writes
+		// the message index into the NAL body). A consumer that joined under publisher J never gets a frame
+		// of an earlier publisher (the TS cache is the cache of the current publisher), and no frame twice.
+		// (the payloads of the video PID are scanned as one byte string: continuity counters restart with
+		// every publisher, which a strict demultiplexer rejects; PES headers look like NAL type 0 and are skipped)
+		var es []byte
+		for _, p := range pk[2:] {
+			if p.PID == vpid {
+				es = append(es, p.Payload...)
+			}
+		}
+		{
+			P := s.X.Published
+			seen := map[int]bool{}
+			{
+				for _, nal := range ref.SplitAnnexB(es) {
+					if len(nal) < 4 || !(nal[0]&0x1f == 5 || nal[0]&0x1f == 1) {
+						continue
+					}
+					idx := int(nal[2])<<8 | int(nal[3])
+					if idx >= len(P) || !(P[idx].Kind == "key" || P[idx].Kind == "inter") {
+						add("unknown-frame", "a video frame that names message #%d, which is not a published frame", idx)
+						return vs
+					}
+					if c.JoinInc != 0 && P[idx].Inc < c.JoinInc {
+						add("stale-incarnation", "joined under publisher %d and received %s of publisher %d", c.JoinInc, P[idx], P[idx].Inc)
+						return vs
+					}
+					if seen[idx] {
+						add("duplicate", "frame %s delivered twice", P[idx])
+						return vs
+					}
+					seen[idx] = true
+				}
+			}
+		}
 	}
 	return vs
 }
@@ -316,6 +352,7 @@ func configs(r *vk.Run) []sw.SysOpts {
 	full := []string{"P:metasdf", "P:vsh", "P:vsh2", "P:key", "P:inter", "P:ash", "P:aac", "J:rtmp", "J:flv", "J:ts", "PubLeave", "PubArrive"}
 	av := []string{"P:metasdf", "P:vsh", "P:vsh2", "P:key", "P:inter", "P:ash", "P:aac", "J:rtmp", "J:flv", "PubLeave", "PubArrive"}
 	lean := []string{"P:vsh", "P:vsh2", "P:key", "P:inter", "P:aac", "J:rtmp", "J:flv", "PubLeave", "PubArrive"}
+	leanTs0 := append(append([]string{}, lean...), "J:ts")
 	var cs []sw.SysOpts
 	add := func(name string, alpha []string, start bool, kv ...interface{}) {
 		c := world.Conf{}
@@ -327,6 +364,9 @@ func configs(r *vk.Run) []sw.SysOpts {
 	add("gop0", full, true)
 	add("gop1", av, true, "rtmp.gop_num", 1, "httpflv.gop_num", 1, "httpts.gop_num", 1)
 	add("gop2", lean, true, "rtmp.gop_num", 2, "httpflv.gop_num", 2)
+	// the caches of the protocols have sizes of their own
+	add("gop-rtmp1-flv2-ts0", leanTs0, true, "rtmp.gop_num", 1, "httpflv.gop_num", 2, "httpts.gop_num", 0)
+	add("gop-rtmp2-flv1-ts2", leanTs0, true, "rtmp.gop_num", 2, "httpflv.gop_num", 1, "httpts.gop_num", 2)
 	add("gop1cap1", lean, true, "rtmp.gop_num", 1, "httpflv.gop_num", 1, "rtmp.single_gop_max_frame_num", 1, "httpflv.single_gop_max_frame_num", 1)
 	add("gop2cap2", lean, true, "rtmp.gop_num", 2, "httpflv.gop_num", 2, "rtmp.single_gop_max_frame_num", 2, "httpflv.single_gop_max_frame_num", 2)
 	add("nopub-start", av, false, "rtmp.gop_num", 1, "httpflv.gop_num", 1)
@@ -349,6 +389,13 @@ func configs(r *vk.Run) []sw.SysOpts {
 			cs[len(cs)-1].Prefix = h
 			cs[len(cs)-1].MaxInc = 3
 		}
+	}
+	// the same for HTTP-TS, whose remuxer starts only once both tracks are known: audio + video histories,
+	// the second publisher has announced both tracks, then frames and joiners in every order
+	for _, g := range []int{1, 2} {
+		add(fmt.Sprintf("ts-gop%d-after-av-history", g), []string{"P:key", "P:inter", "P:aac", "J:ts", "J:flv"}, true, "rtmp.gop_num", g, "httpflv.gop_num", g, "httpts.gop_num", g)
+		cs[len(cs)-1].Prefix = []string{"P:vsh", "P:ash", "P:key", "P:aac", "P:inter", "P:key", "P:aac", "P:key", "P:aac", "PubLeave", "PubArrive", "P:vsh", "P:ash"}
+		cs[len(cs)-1].MaxInc = 3
 	}
 	// merge-write with a subscriber that stays while the publisher changes: what the merge buffer still
 	// holds of the first publisher must not surface under the second
